@@ -539,6 +539,9 @@ V("C11", "result-is-self-on-both-branches", T, """        if inplace:
         if sorted_bonds is None:""", "C11-R1", "Trajectory.make_molecules_whole")
 V("C11", "image-copy-is-shallow-slice", T, "            result = self[:]\n        if make_whole and sorted_bonds is None:", "            result = self.slice(slice(None), copy=False)\n        if make_whole and sorted_bonds is None:",
   "C11-R1", "Trajectory.image_molecules")
+V("C11", "twin-cell-rederived-per-frame", T, "        box = np.asarray(result.unitcell_vectors, order=\"c\")\n        _geometry.whole_molecules(", "        vecs = lengths_and_angles_to_box_vectors(*result.unitcell_lengths.T, *result.unitcell_angles.T)\n        box = np.ascontiguousarray(np.swapaxes(np.dstack(vecs), 1, 2))\n        _geometry.whole_molecules(", None)
+V("C11", "cell-of-first-frame-for-all", T, "        box = np.asarray(result.unitcell_vectors, order=\"c\")\n        _geometry.whole_molecules(", "        box = np.ascontiguousarray(np.broadcast_to(result.unitcell_vectors[0], (result.n_frames, 3, 3)))\n        _geometry.whole_molecules(", "C11-R1", "Trajectory.make_molecules_whole")
+V("C11", "cell-storage-lengths-instead-of-vectors", T, "        box = np.asarray(result.unitcell_vectors, order=\"c\")\n        _geometry.image_molecules(", "        box = np.asarray(result.unitcell_vectors[::-1], order=\"c\")\n        _geometry.image_molecules(", "C11-R1", "Trajectory.image_molecules")
 V("C11", "make_whole-cell-transposed", PX, "            offset[k] = frame_unitcell_vectors[2, k]*roundf(delta[2]/frame_unitcell_vectors[2,2])", "            offset[k] = frame_unitcell_vectors[k, 2]*roundf(delta[2]/frame_unitcell_vectors[2,2])", "C11-R2", "make_whole")
 V("C11", "make_whole-roundf-dropped", PX, "            offset[k] += frame_unitcell_vectors[1, k]*roundf((delta[1]-offset[1])/frame_unitcell_vectors[1,1])", "            offset[k] += frame_unitcell_vectors[1, k]*((delta[1]-offset[1])/frame_unitcell_vectors[1,1])", "C11-R2", "make_whole")
 V("C11", "make_whole-wrong-divisor", PX, "roundf((delta[0]-offset[0])/frame_unitcell_vectors[0,0])\n            frame_positions", "roundf((delta[0]-offset[0])/frame_unitcell_vectors[1,1])\n            frame_positions", "C11-R2", "make_whole")
